@@ -18,6 +18,13 @@ def gen_cases(ctx):
         c = br.Case(); c.files = [('f', [('seg', 100, 5)])]; c.bsize = 1000; c.no_progress = False; c.driver = drv; c.workers = 2
         c.reflink = 'auto'; c.prior = 'absent'; c.plan = ['clamp copy_file_range D/f * 1 37']; c.extra = []; c.tag = 'corpus-F1'
         cases.append(c)
+    # corpus: the whole file is ONE request (--no-progress, or a block size larger than the file) and the kernel moves less than
+    # asked for (it never moves more than 2 GiB - 4 KiB per call): the rest must still be copied
+    for drv in ('parfile', 'parblock'):
+        for nop in (True, False):
+            c = br.Case(); c.files = [('f', [('seg', 300000, 9)]), ('g', [('seg', 5000, 8)])]; c.bsize = 1 << 20; c.no_progress = nop; c.driver = drv; c.workers = 2
+            c.reflink = 'never'; c.prior = 'absent'; c.plan = ['clamp copy_file_range D/f * 1 100000']; c.extra = []; c.tag = 'corpus-one-request-short'
+            cases.append(c)
     for i in range(n):
         c = br.Case()
         b = rng.choice([1, 2, 7, 4096, 65536, MB, 'nop'])
@@ -41,7 +48,7 @@ def gen_cases(ctx):
         c.driver = rng.choice(['parfile', 'parblock'])
         c.workers = rng.choice([1, 2, 3, 4, 8, 9])
         c.reflink = rng.choice(['auto', 'never'])
-        c.prior = rng.choice(['absent', 'absent', 'shorter', 'longer', 'longer-sparse'])
+        c.prior = rng.choice(['absent', 'absent', 'shorter', 'longer', 'longer-sparse', 'same-meta'])
         c.plan, c.extra, c.tag = [], [], 'gen'
         if rng.random() < 0.15:      # source and destination on different file systems: every copy_file_range is refused
             c.plan = [f'fail copy_file_range * * {scen.ERRNO[rng.choice(["EXDEV", "ENOSYS", "EPERM"])]}']
@@ -85,7 +92,7 @@ def run(ctx):
         if not ctx.quick:
             big_copy(ctx, root)
     ctx.cov['rule'] = ('sizes {0,1,b-1,b,b+1,kb-1,kb+1,3b+r} x b in {1,2,7,4096,65536,1MB,usize::MAX(--no-progress)} x dense/sparse (4K data runs, >=64K holes, >32 extents) '
-                       'x prior destination {absent, shorter, longer, longer for a sparse source} x driver x workers 1..9 x reflink {auto,never}, 30% with a clamped copy_file_range; + a failing data call (EIO/ENOSPC/EINTR, kernel or user-space path) in any thread; + sources with preallocated, freshly written space. '
+                       'x prior destination {absent, shorter, longer, longer for a sparse source, same length and mtime with other bytes} x driver x workers 1..9 x reflink {auto,never}, 30% with a clamped copy_file_range; + a failing data call (EIO/ENOSPC/EINTR, kernel or user-space path) in any thread; + sources with preallocated, freshly written space. '
                        'distinct = distinct (sizes, block, driver, workers, reflink, prior, plan); non-trivial = some file non-empty')
     ctx.assumptions += ['KernSafe/KernLive checked on every traced kernel answer', 'ext4 reports data/holes and extents soundly (checked by the byte oracle)']
 
